@@ -11,7 +11,7 @@ import (
 )
 
 const ruleRT = "1-10 messages built by the five change constructors and three control constructors with every subset of {WithTxID, WithTimestamp, WithAutoTimestamp, WithEntityType}, entities with nested structs, maps, nil and empty slices, pointer fields, unicode/escaped strings, extreme ints and finite floats, keys any non-empty valid-UTF-8 string; published through a bus on the memory / SQLite / durable-streams store and replayed into a strict materializer. Oracle: constructor output fields as given; every stored document uses only the protocol's field names and the fixed event type names; each materialized entity is JSON-equal to the original, deletes/resets respected, control callbacks as sent. Non-trivial = >=2 options, a pointer field, or non-ASCII key/name."
-const ruleHostile = "arbitrary bytes, special documents (deep nesting, hybrid control+change headers, wrong JSON types) and structure-aware mutations of valid messages presented to Apply on a pre-populated materializer (strict and not). Oracle: no panic; an error leaves every collection and LastOffset unchanged; nil advances LastOffset. Non-trivial = valid JSON that is rejected."
+const ruleHostile = "arbitrary bytes, special documents (deep nesting, hybrid control+change headers, wrong JSON types) and structure-aware mutations of valid messages presented to Apply on a pre-populated materializer (strict and not, with every combination of the OnError, OnReset and OnSnapshot options). Oracle: no panic; an error leaves every collection and LastOffset unchanged; nil advances LastOffset. Non-trivial = valid JSON that is rejected."
 
 var collMem = vkit.NewCollector("C19", "TestRoundTripMemory", ruleRT)
 var collSQL = vkit.NewCollector("C19", "TestRoundTripSQLite", ruleRT)
@@ -29,14 +29,14 @@ func TestHostile(t *testing.T)          { vkit.Check(t, collHostile, GenHostile,
 // FuzzApply is the coverage-guided variant (thorough tier only).
 func FuzzApply(f *testing.F) {
 	for _, s := range hostileSeeds {
-		f.Add([]byte(s), false)
-		f.Add([]byte(s), true)
+		f.Add([]byte(s), false, uint8(0))
+		f.Add([]byte(s), true, uint8(7))
 	}
-	f.Add([]byte(`{"type":"user","key":"user:1","value":{"name":"Alice"},"headers":{"operation":"insert"}}`), false)
-	f.Add([]byte(`{"type":"user","key":"1","value":{"name":"new"},"old_value":{"name":"old"},"headers":{"operation":"update"}}`), true)
-	f.Add([]byte(`{"headers":{"control":"snapshot-end"}}`), false)
-	f.Fuzz(func(t *testing.T, data []byte, strict bool) {
-		c := &HostileCase{Data: string(data), Strict: strict}
+	f.Add([]byte(`{"type":"user","key":"user:1","value":{"name":"Alice"},"headers":{"operation":"insert"}}`), false, uint8(1))
+	f.Add([]byte(`{"type":"user","key":"1","value":{"name":"new"},"old_value":{"name":"old"},"headers":{"operation":"update"}}`), true, uint8(1))
+	f.Add([]byte(`{"headers":{"control":"snapshot-end"}}`), false, uint8(6))
+	f.Fuzz(func(t *testing.T, data []byte, strict bool, opts uint8) {
+		c := &HostileCase{Data: string(data), Strict: strict, Opts: int(opts & 7)}
 		if v := collFuzz.Account(c, RunHostile(c)); v != nil {
 			vkit.SaveFail("C19", "FuzzApply", c, v)
 			if dir := os.Getenv("VERIF_OUT"); dir != "" {
